@@ -30,6 +30,10 @@
 #include "platform.h"
 
 struct Storage* tiff_init(void);
+struct Storage* side_by_side_tiff_init(void);
+#ifndef DEV
+#define DEV 1 /* 1 tiff, 2 tiff-json composite (side-by-side-tiff.cpp) */
+#endif
 
 #ifndef NFRAMES
 #define NFRAMES 1
@@ -70,9 +74,24 @@ _Znwm(unsigned long n)
 }
 void _ZdlPv(void* p) { if (p == (void*)&the_tiff) tiff_live = 0; else free(p); }
 void _ZdlPvm(void* p, unsigned long n) { _ZdlPv(p); }
+#if DEV == 2
+/* minimal exception runtime for the composite's CHECK-throws-runtime_error / catch-in-same-function
+ * pattern: the exception object's vptr leads to a table whose `what` slot (Itanium ABI: third
+ * virtual function of std::exception) is a stub */
+static const char* exn_what(void* self) { return ""; }
+static void* fake_vtable[5] = { 0, 0, 0, 0, (void*)exn_what };
+static char exn_store[4][16] __attribute__((aligned(16)));
+static int exn_n;
+void* __cxa_allocate_exception(unsigned long n) { VASSERT(n <= 16 && exn_n < 4, "exception object"); return exn_store[exn_n++]; }
+void __cxa_free_exception(void* p) {}
+void _ZNSt13runtime_errorC1EPKc(void* self, const char* msg) { *(void***)self = &fake_vtable[2]; }
+void* __cxa_begin_catch(void* p) { return p; }
+#else
 void* __cxa_begin_catch(void* p) { VASSUME(0); return 0; }
+#endif
 void __cxa_end_catch(void) {}
 void _ZSt9terminatev(void) { VASSUME(0); }
+void __clang_call_terminate(void* p) { VASSUME(0); }
 void _ZSt17__throw_bad_allocv(void) { VASSUME(0); }
 void _ZSt20__throw_length_errorPKc(const char* s) { VASSUME(0); }
 void _ZSt19__throw_logic_errorPKc(const char* s) { VASSUME(0); }
@@ -90,7 +109,7 @@ realloc(void* p, size_t n)
 
 /* ---- file model ---- */
 static uint64_t flen;
-static int is_open, n_close, n_create, n_write, bad_ops;
+static int is_open, n_close, n_create, n_write, bad_ops, cur_is_tif, n_tif_create, n_other_create;
 static int fail_create, fail_write_at = -1, fail_write_from = -1, write_errors;
 int file_is_writable(const char* f, size_t n) { return 1; }
 int
@@ -102,6 +121,13 @@ file_create(struct file* f, const char* name, size_t n)
     is_open = 1;
     ++n_create;
     flen = 0;
+    /* the streaming TIFF reader only looks at the .tif file (the composite also writes metadata.json) */
+#if DEV == 2
+    cur_is_tif = n >= 4 && name[n - 4] == '.' && name[n - 3] == 't' && name[n - 2] == 'i' && name[n - 1] == 'f';
+#else
+    cur_is_tif = 1;
+#endif
+    if (cur_is_tif) ++n_tif_create; else ++n_other_create;
     return 1;
 }
 void
@@ -125,7 +151,7 @@ file_write(const struct file* f, uint64_t off, const uint8_t* beg, const uint8_t
     if (idx == fail_write_at || (fail_write_from >= 0 && idx >= fail_write_from)) { ++write_errors; return 0; }
     size_t n = (size_t)(end - beg);
 #if MODE == 15
-    on_write(off, beg, n);
+    if (cur_is_tif) on_write(off, beg, n);
 #endif
     if (off + n > flen) flen = off + n;
     return 1;
@@ -162,6 +188,53 @@ drv_close(struct Driver* d, struct Device* in)
 static struct Driver drv = { .close = drv_close };
 struct Driver* device_manager_get_driver(const struct DeviceManager* self, const struct DeviceIdentifier* identifier) { return &drv; }
 
+#if DEV == 2
+#ifndef SBS_START_STEP3
+/* mirrors:  state = self->tiff->set(self->tiff, &props);   CHECK(state == DeviceState_Armed);
+ *           state = self->tiff->start(self->tiff);        CHECK(state == DeviceState_Running);   */
+#define SBS_START_STEP3                                                                    \
+    state = self->tiff->set(self->tiff, &props);                                            \
+    if (state != DeviceState_Armed) return DeviceState_AwaitingConfiguration;               \
+    state = self->tiff->start(self->tiff);                                                  \
+    if (state != DeviceState_Running) return DeviceState_AwaitingConfiguration;
+#endif
+/* side_by_side_tiff_set / _start use std::filesystem and are NOT translated.  They are modelled
+ * here by hand, statement for statement after steps 2 and 3 of the real side_by_side_tiff_start
+ * (the runner refuses to run when that source text changes, see props/_tiff_common.py). */
+struct sbs { struct Storage storage; struct Storage* tiff; struct StorageProperties props; };
+uint32_t
+_ZN12_GLOBAL__N_121side_by_side_tiff_setEP7StoragePK17StorageProperties(char* self_, char* props_)
+{
+    struct sbs* self = (struct sbs*)self_;
+    self->props = *(const struct StorageProperties*)props_; /* (deep copy in the real code) */
+    return DeviceState_Armed;
+}
+uint32_t
+_ZN12_GLOBAL__N_123side_by_side_tiff_startEP7Storage(char* self_)
+{
+    struct sbs* self = (struct sbs*)self_;
+    enum DeviceState state = DeviceState_AwaitingConfiguration;
+    /* 2. write metadata.json file */
+    if (self->props.external_metadata_json.nbytes) {
+        struct file file = { 0 };
+        if (!file_create(&file, "d/metadata.json", 15)) return DeviceState_AwaitingConfiguration;
+        int is_ok = file_write(&file, 0, (uint8_t*)self->props.external_metadata_json.str,
+                               (uint8_t*)self->props.external_metadata_json.str + self->props.external_metadata_json.nbytes - 1);
+        file_close(&file);
+        if (!is_ok) return DeviceState_AwaitingConfiguration;
+    }
+    /* 3. set/start tiff writer */
+    {
+        static char video_path[] = "d/data.tif";
+        struct StorageProperties props = self->props;
+        props.uri.str = video_path; props.uri.nbytes = sizeof(video_path) - 1; props.uri.is_ref = 1;
+        if (!self->tiff) return DeviceState_AwaitingConfiguration;
+        SBS_START_STEP3
+    }
+    return state;
+}
+#endif
+
 union frame { struct VideoFrame v; uint8_t raw[sizeof(struct VideoFrame) + PXB]; };
 static union frame F[NFRAMES];
 static uint8_t packet[NFRAMES * sizeof(union frame)] __attribute__((aligned(8)));
@@ -175,7 +248,7 @@ bpt(enum SampleType t)
 /* ---- streaming reader state ---- */
 static int stage;            /* 0 header expected; then 1+3*i directory, 2+3*i strip, 3+3*i strings; last: terminator */
 static int rd_errors;        /* any deviation from a valid BigTIFF with the frames' content */
-static uint64_t prev_end = 16, cur_ifd, link_pos, link_val, strip_off, strip_len, d_off, d_cnt;
+static uint64_t prev_end = 16, first_ifd_expected = 16, cur_ifd, link_pos, link_val, strip_off, strip_len, d_off, d_cnt;
 static int terminated, frames_read;
 #define BAD(c) do { if (!(c)) ++rd_errors; } while (0)
 static uint16_t ld16(const uint8_t* p) { return *(const uint16_t*)p; }
@@ -196,7 +269,7 @@ on_write(uint64_t off, const uint8_t* beg, size_t n)
         /* directory of frame i: where the previous directory's link (or the header) points, not
          * overlapping anything written before */
         BAD(n == 8 + 16 * 20 + 8 && (off & 7) == 0 && off >= prev_end);
-        BAD(i == 0 ? off == 16 : off == link_val);
+        BAD(i == 0 ? off == first_ifd_expected : off == link_val);
         BAD(ld64(beg) == 16);
         int seen = 0;
         for (int k = 0; k < 16; ++k) {
@@ -243,7 +316,12 @@ on_write(uint64_t off, const uint8_t* beg, size_t n)
 int
 main(void)
 {
+#if DEV == 2
+    struct Storage* dev = side_by_side_tiff_init();
+    static char meta_json[] = "{}";
+#else
     struct Storage* dev = tiff_init();
+#endif
     VASSUME(dev != 0);
     dev->device.driver = &drv;
     static struct StorageProperties p;
@@ -258,9 +336,28 @@ main(void)
     p.uri.is_ref = 1;
     p.pixel_scale_um.x = 1;
     p.pixel_scale_um.y = 1;
+#if DEV == 2
+    if (ND(bool_t)) { p.external_metadata_json.str = meta_json; p.external_metadata_json.nbytes = sizeof meta_json; p.external_metadata_json.is_ref = 1; }
+#endif
 #if MODE == 15
     VASSERT(storage_set(dev, &p) == Device_Ok, "set failed");
     VASSERT(storage_start(dev) == Device_Ok, "start failed");
+#ifdef FRAME_STEP
+    /* per-frame induction step: the file already holds an ARBITRARY amount of data (any 64-bit end
+     * offset, so also files beyond 4 GiB); the next frame's directory must start at the next
+     * 8-byte boundary at or after that end, and everything else is laid out relative to it */
+    {
+        uint64_t base = ND(uint64_t);
+        VASSUME(base >= 16 && base <= (((uint64_t)1) << 62));
+        the_tiff.last_offset = base;
+        the_tiff.last_ifd_next_offset = ND(uint64_t);
+        VASSUME(the_tiff.last_ifd_next_offset + 8 <= base);
+        the_tiff.frame_count = 1; /* not the first frame of the file */
+        prev_end = base;
+        first_ifd_expected = (base + 7) & ~(uint64_t)7;
+        flen = base;
+    }
+#endif
     for (int i = 0; i < NFRAMES; ++i) {
         memset(&F[i], 0, sizeof F[i]);
         F[i].v.bytes_of_frame = sizeof(struct VideoFrame) + PXB;
@@ -286,7 +383,7 @@ main(void)
     VASSERT(storage_append(dev, (struct VideoFrame*)packet, (struct VideoFrame*)(packet + sizeof packet)) == Device_Ok, "append failed");
 #endif
     VASSERT(storage_stop(dev) == Device_Ok, "stop failed");
-    VASSERT(bad_ops == 0 && n_create == 1 && n_close == 1 && !is_open, "C16: descriptor not created/closed exactly once");
+    VASSERT(bad_ops == 0 && n_tif_create == 1 && n_close == n_create && !is_open, "C15/C16: the file is not closed at stop (descriptor not created/closed exactly once)");
     /* ---- verdict of the streaming reader ---- */
     VASSERT(rd_errors == 0, "C15: the file is not a valid little-endian BigTIFF carrying the frames (header, directory position/entries, width/height/bits/sample format, strip position/bytes, description position, links)");
     VASSERT(frames_read == NFRAMES && stage == 2 + 3 * NFRAMES, "C15: number of directories written differs from the number of frames appended");
@@ -297,7 +394,7 @@ main(void)
                 "C15: description does not carry the frame's ids and timestamps");
     VASSERT(va_calls == NFRAMES, "C15: number of descriptions differs from the number of frames");
     storage_close(dev);
-    VASSERT(bad_ops == 0 && n_close == 1 && destroyed == 1, "C16: descriptor misuse at close");
+    VASSERT(bad_ops == 0 && n_close == n_create && destroyed == 1, "C16: descriptor misuse at close");
     WITNESS_END();
 #elif MODE == 16
     fail_create = ND(bool_t);
